@@ -843,7 +843,7 @@ F.RENDERERS['inline'] = render
 
 
 # ----------------------------------------------------------------------------- Loki drivers
-TRANSFORM_TIMEOUT = int(__import__("os").environ.get("VERIF_TF_TIMEOUT", "90"))     # seconds; a transformation that does not return is a failure class
+TRANSFORM_TIMEOUT = int(__import__("os").environ.get("VERIF_TF_TIMEOUT", "180"))     # seconds; a transformation that does not return is a failure class
 
 
 _WARM = []
@@ -1246,6 +1246,14 @@ def tags(prog):
                         refs.setdefault(nm_, set()).update(st_)
                     if any(len(v) > 1 for v in refs.values()):
                         t.add('host-array-2refs')
+            inreg = False
+            for x in flat:
+                if x['s'] == 'raw' and x['text'].startswith('!$loki outline'):
+                    inreg = True
+                elif x['s'] == 'raw' and x['text'].startswith('!$loki end outline'):
+                    inreg = False
+                elif inreg and x['s'] == 'print' and mentions(x['items']) & harr:
+                    t.add('region-print-array')
             inassoc = False
             for x in _flat(body):
                 if x['s'] == 'assoc' and any(y['s'] == 'raw' and y['text'].startswith('!$loki outline') for y in _flat(x['body'])):
